@@ -1257,7 +1257,12 @@ func modI(x, y Integer) (Integer, error) {
 	if y == 0 {
 		return 0, exceptionalValueZeroDivisor
 	}
-	return x - (Integer(math.Floor(float64(x)/float64(y))) * y), nil
+	// Floored modulo in integer arithmetic; float64 cannot represent every Integer above 2^53.
+	m := x % y
+	if m != 0 && (m < 0) != (y < 0) {
+		m += y
+	}
+	return m, nil
 }
 
 func negI(x Integer) (Integer, error) {
@@ -1301,7 +1306,12 @@ func intFloorDivI(x, y Integer) (Integer, error) {
 	case y == 0:
 		return 0, exceptionalValueZeroDivisor
 	default:
-		return Integer(math.Floor(float64(x) / float64(y))), nil
+		// Floored division in integer arithmetic; float64 cannot represent every Integer above 2^53.
+		q := x / y
+		if x%y != 0 && (x < 0) != (y < 0) {
+			q--
+		}
+		return q, nil
 	}
 }
 
